@@ -18,6 +18,11 @@ structure FibSt where
   rs : RState
   /-- spec side: replay of every command the implementation emitted in this history -/
   routes : Spec.Routes := []
+  /-- per remote router (index): its advertisement number, the number this router remembers for it
+      (`AdvertSeq`, only while the neighbour state lives), its current advertisement -/
+  cnt : List (Nat × Nat) := []
+  aseq : List (Nat × Nat) := []
+  lastAdv : List (Nat × List C18.AdvEntry) := []
 
 def idxOfKey (keys : List Nat) (k : Nat) : Option Nat :=
   let i := keys.idxOf k
@@ -268,71 +273,128 @@ def notePend (s : LogSt) (b : Nat) (got : String) : LogSt :=
   | some pe => { s with lastPend := (b, pe) :: s.lastPend.filter (·.1 != b) }
   | none => s
 
+def lookupN (l : List (Nat × Nat)) (k : Nat) (d : Nat) : Nat := ((l.find? (·.1 == k)).map (·.2)).getD d
+def setN (l : List (Nat × Nat)) (k v : Nat) : List (Nat × Nat) := (k, v) :: l.filter (·.1 != k)
+
+/-- a Sync Interest of remote router `w` announcing number `sv` arrives on `face`: `advertSyncOnInterest`
+    (event ping); if the number is newer than the remembered one (or the neighbour state is new) the
+    advertisement is fetched and — when the remote router has one — processed (`advertDataHandler` → event adv) -/
+def syncW (s : FibSt) (w face : Nat) (act : Bool) (sv : Nat) : FibSt × List Cmd × List String :=
+  let key := s.keys.getD w 0
+  let prefixOf := prefixOfKeys s.keys
+  let absent := (pget s.rs.t.nbrs key).isNone
+  let started := absent || lookupN s.aseq w 0 < sv
+  let dirty := (s.rs.t.stepDirty (.ping key face act)).2
+  let (rs1, c1) := s.rs.stepCmds prefixOf (.ping key face act)
+  let s1 := { s with rs := rs1, aseq := if started then setN s.aseq w sv else s.aseq }
+  let tag := if dirty then (if started then "ping-face-change-newer" else "ping-face-change") else "ping-same-face"
+  match started, s.lastAdv.find? (·.1 == w) with
+  | true, some (_, adv) =>
+    let d2 := (rs1.t.stepDirty (.adv key adv)).2
+    let (rs2, c2) := rs1.stepCmds prefixOf (.adv key adv)
+    ({ s1 with rs := rs2 }, c1 ++ c2, [tag, if d2 then "adv-dirty" else "adv-clean"])
+  | _, _ => (s1, c1, [tag])
+
+/-- the model of one installer op; none = the op does not apply (skip) -/
+def runFibOp (s : FibSt) (f : List String) : Option (FibSt × List Cmd × List String) :=
+  let keyOf (w : Nat) := s.keys.getD w 0
+  let prefixOf := prefixOfKeys s.keys
+  let event (s : FibSt) (ev : RouterEvent) (tagDirty tagClean : String) : FibSt × List Cmd × List String :=
+    let dirty := (s.rs.t.stepDirty ev).2
+    let (rs', cmds) := s.rs.stepCmds prefixOf ev
+    ({ s with rs := rs' }, cmds, [if dirty then tagDirty else tagClean])
+  match f with
+  | [pingOp, w, face, act] =>
+    if pingOp != "ping" && pingOp != "pingnew" then none else
+    match w.toNat?, face.toNat? with
+    | some w, some face =>
+      if !(1 ≤ w && w < s.n) || face == 0 then none else
+      let c := lookupN s.cnt w 1 + (if pingOp == "pingnew" then 1 else 0)
+      some (syncW { s with cnt := setN s.cnt w c } w face (act == "1") c)
+    | _, _ => none
+  | [advOp, w, items] =>
+    if advOp != "adv" && advOp != "advrace" then none else
+    match w.toNat?, parseAdvItems s.n s.keys items with
+    | some w, some adv =>
+      if !(1 ≤ w && w < s.n) then none else
+      match pget s.rs.t.nbrs (keyOf w) with
+      | none => none
+      | some nb =>
+        if advOp == "adv" then
+          -- the remote router announces a newer advertisement on the face it is known on
+          let c := lookupN s.cnt w 1 + 1
+          some (syncW { s with cnt := setN s.cnt w c, lastAdv := (w, adv) :: s.lastAdv.filter (·.1 != w) } w nb.face true c)
+        else
+          -- the neighbour dies before the pending ribUpdate runs: ns.Advert is nil and ribUpdate returns
+          let (s', cmds, _) := event s (.dead (keyOf w)) "advrace" "advrace"
+          some ({ s' with aseq := s'.aseq.filter (·.1 != w) }, cmds, ["advrace"])
+    | _, _ => none
+  | ["dead", w] =>
+    match w.toNat? with
+    | some w =>
+      if !(1 ≤ w && w < s.n) then none else
+      match pget s.rs.t.nbrs (keyOf w) with
+      | none => none
+      | some _ =>
+        let (s', cmds, cov) := event s (.dead (keyOf w)) "dead-dirty" "dead-clean"
+        some ({ s' with aseq := s'.aseq.filter (·.1 != w) }, cmds, cov)
+    | none => none
+  | ["sweep", wsT] =>
+    match (wsT.splitOn ",").mapM String.toNat? with
+    | some ws =>
+      if !(ws.all fun w => 1 ≤ w && w < s.n) then none
+      else if !(ws.any fun w => (pget s.rs.t.nbrs (keyOf w)).isSome) then none
+      else
+        let (s', cmds, cov) := event s (.sweep (ws.map keyOf)) "sweep-dirty" "sweep-clean"
+        some ({ s' with aseq := s'.aseq.filter fun p => !ws.contains p.1 }, cmds, cov)
+    | none => none
+  | ["papply", x, reset, adds, rems] =>
+    match x.toNat? with
+    | some x =>
+      if !(x < s.n) then none else
+      some (event s (.papply (keyOf x) (reset == "1") (parseIds s.n adds) (parseIds s.n rems)) "papply-dirty" "papply-clean")
+    | none => none
+  | ["fib"] =>
+    let (rs', cmds) := s.rs.fibUpdateCmds prefixOf
+    some ({ s with rs := rs' }, cmds, ["fib"])
+  | _ => none
+
+def splitSlash (f : List String) : List (List String) :=
+  f.foldr (fun t acc => if t == "/" then [] :: acc else match acc with
+    | h :: r => (t :: h) :: r
+    | [] => [[t]]) [[]]
+
 def stepFib (s : FibSt) (f : List String) (got : String) : StepResult St :=
   -- spec side first (independent of the model)
   let (routes', fails) := if got == "skip" then (s.routes, []) else specFib s.routes got
   let s := { s with routes := routes' }
-  let skip : StepResult St := { st := .fib s, expected := some "skip", spec := fails }
-  let keyOf (w : Nat) := s.keys.getD w 0
   let prefixOf := prefixOfKeys s.keys
-  let finish (rs' : RState) (cmds : List Cmd) (cov : List String) : StepResult St :=
-    let s' := { s with rs := rs' }
+  let finish (s' : FibSt) (cmds : List Cmd) (cov : List String) : StepResult St :=
     { st := .fib s', expected := some (dumpFib cmds s'), spec := fails,
       cov := cov ++ (if cmds.any (fun c => match c with | .register .. => true | _ => false) then ["cmd-register"] else []) ++
                     (if cmds.any (fun c => match c with | .unregister .. => true | _ => false) then ["cmd-unregister"] else []) ++
-                    (if rs'.fib.prefixes.any (fun (_, es) => es.length ≥ 3) then ["three-faces"] else []) ++
-                    (if (desired prefixOf rs'.t).any (fun (_, fes) => fes.length ≥ 4) then ["multi-homed"] else []),
-      nontrivial := !rs'.fib.prefixes.isEmpty }
-  /- one router-level event of the model (`RState.stepCmds`: tables + fibUpdate iff dirty) -/
-  let event (ev : RouterEvent) (tagDirty tagClean : String) : StepResult St :=
-    let dirty := (s.rs.t.stepDirty ev).2
-    let (rs', cmds) := s.rs.stepCmds prefixOf ev
-    finish rs' cmds [if dirty then tagDirty else tagClean]
+                    (if s'.rs.fib.prefixes.any (fun (_, es) => es.length ≥ 3) then ["three-faces"] else []) ++
+                    (if (desired prefixOf s'.rs.t).any (fun (_, fes) => fes.length ≥ 4) then ["multi-homed"] else []),
+      nontrivial := !s'.rs.fib.prefixes.isEmpty }
   match f with
-  | ["ping", w, face, act] =>
-    match w.toNat?, face.toNat? with
-    | some w, some face =>
-      if !(1 ≤ w && w < s.n) || face == 0 then skip else
-      event (.ping (keyOf w) face (act == "1")) "ping-face-change" "ping-same-face"
-    | _, _ => skip
-  | [advOp, w, items] =>
-    if advOp != "adv" && advOp != "advrace" then { st := .fib s, expected := some "bad-op", spec := fails } else
-    match w.toNat?, parseAdvItems s.n s.keys items with
-    | some w, some adv =>
-      if !(1 ≤ w && w < s.n) then skip else
-      match pget s.rs.t.nbrs (keyOf w) with
-      | none => skip
-      | some _ =>
-        if advOp == "adv" then event (.adv (keyOf w) adv) "adv-dirty" "adv-clean"
-        else
-          -- the neighbour dies before ribUpdate runs: ns.Advert is nil and ribUpdate returns
-          event (.dead (keyOf w)) "advrace" "advrace"
-    | _, _ => skip
-  | ["dead", w] =>
-    match w.toNat? with
-    | some w =>
-      if !(1 ≤ w && w < s.n) then skip else
-      match pget s.rs.t.nbrs (keyOf w) with
-      | none => skip
-      | some _ => event (.dead (keyOf w)) "dead-dirty" "dead-clean"
-    | none => skip
-  | ["sweep", wsT] =>
-    match (wsT.splitOn ",").mapM String.toNat? with
-    | some ws =>
-      if !(ws.all fun w => 1 ≤ w && w < s.n) then skip
-      else if !(ws.any fun w => (pget s.rs.t.nbrs (keyOf w)).isSome) then skip
-      else event (.sweep (ws.map keyOf)) "sweep-dirty" "sweep-clean"
-    | none => skip
-  | ["papply", x, reset, adds, rems] =>
-    match x.toNat? with
-    | some x =>
-      if !(x < s.n) then skip else
-      event (.papply (keyOf x) (reset == "1") (parseIds s.n adds) (parseIds s.n rems)) "papply-dirty" "papply-clean"
-    | none => skip
-  | ["fib"] =>
-    let (rs', cmds) := s.rs.fibUpdateCmds prefixOf
-    finish rs' cmds ["fib"]
-  | _ => skip
+  | "retry" :: rest =>
+    -- a transient failure delays the first registration of the first op; the management thread retries it
+    -- IN PLACE, so the commands still take effect in the order they were issued: the ops in sequence
+    let (s', cmds, cov) := (splitSlash rest).foldl (fun (acc : FibSt × List Cmd × List String) o =>
+      match o with
+      | k :: _ =>
+        if ["ping", "pingnew", "adv", "papply"].contains k then
+          match runFibOp acc.1 o with
+          | some (s2, c2, v2) => (s2, acc.2.1 ++ c2, acc.2.2 ++ v2)
+          | none => acc
+        else acc
+      | [] => acc) (s, [], ["retry"])
+    let sameKeyTwice := cmds.any fun c => (cmds.filter fun d => cmdKey d == cmdKey c).length ≥ 2
+    finish s' cmds (cov ++ (if sameKeyTwice then ["retry-same-route-twice"] else []))
+  | _ =>
+    match runFibOp s f with
+    | some (s', cmds, cov) => finish s' cmds cov
+    | none => { st := .fib s, expected := some "skip", spec := fails }
 
 def stepLog (s : LogSt) (f : List String) (got : String) : StepResult St :=
   let skip : StepResult St := { st := .log s, expected := some "skip" }
@@ -444,7 +506,7 @@ def step (st : St) (op : String) (got : String) : StepResult St :=
     match st with
     | .none => { st := st, expected := some "skip" }
     | .fib s =>
-      if ["ping", "adv", "advrace", "dead", "sweep", "papply", "fib"].contains (f.headD "") then stepFib s f got
+      if ["ping", "pingnew", "retry", "adv", "advrace", "dead", "sweep", "papply", "fib"].contains (f.headD "") then stepFib s f got
       else
         -- keep the spec replay meaningful even on an op the model does not know
         { st := st, expected := some "skip" }
